@@ -212,7 +212,7 @@ pub fn main(variant: u8, pattern: &[u8], seed: u64, single: Option<u64>) -> (i32
 /// C12 thorough: hash_stream_for::<K> on a generated periodic stream of `total` bytes (no memory), delivered in
 /// seeded read sizes with occasional EINTR; the result must equal the reference model at that offset
 /// (a hash for total <= 4,224,281,216, TooLargeInput above).
-pub fn big_reader(variant: u8, pattern: &[u8], seed: u64, total: u64) -> (i32, Value) {
+pub fn big_reader(variant: u8, pattern: &[u8], seed: u64, total: u64, fail_at_end: bool) -> (i32, Value) {
     struct Gen<'a> {
         pat: &'a [u8],
         pos: u64,
@@ -220,10 +220,16 @@ pub fn big_reader(variant: u8, pattern: &[u8], seed: u64, total: u64) -> (i32, V
         r: Rng,
         eintr: u64,
         calls: u64,
+        fail_at_end: bool,
     }
     impl std::io::Read for Gen<'_> {
         fn read(&mut self, buf: &mut [u8]) -> std::io::Result<usize> {
             self.calls += 1;
+            if self.fail_at_end && self.pos == self.total {
+                // the stream does not end: after `total` bytes the device fails (errno 5) -- whatever the helper thinks of the
+                // amount of data it has seen so far, a hard error is a hard error
+                return Err(std::io::Error::from_raw_os_error(5));
+            }
             if self.r.chance(1, 50) {
                 self.eintr += 1;
                 return Err(std::io::Error::from(std::io::ErrorKind::Interrupted));
@@ -245,15 +251,15 @@ pub fn big_reader(variant: u8, pattern: &[u8], seed: u64, total: u64) -> (i32, V
     }
     let t0 = std::time::Instant::now();
     let v = VARIANTS[variant as usize % 5];
-    let mut g = Gen { pat: pattern, pos: 0, total, r: Rng::new(seed), eintr: 0, calls: 0 };
+    let mut g = Gen { pat: pattern, pos: 0, total, r: Rng::new(seed), eintr: 0, calls: 0, fail_at_end };
     let got = crate::framework::guarded(|| {
         with_kind!(variant, K => match <K as Kind>::hash_stream(&mut g) {
             Ok(h) => h.to_string(),
             Err(tlsh::GeneratorOrIOError::GeneratorError(e)) => format!("Err({e:?})"),
-            Err(tlsh::GeneratorOrIOError::IOError(e)) => format!("IOError({:?})", e.kind()),
+            Err(tlsh::GeneratorOrIOError::IOError(e)) => format!("IOError({:?}, errno {:?})", e.kind(), e.raw_os_error()),
         })
     });
-    let hist = json!({"variant_id": variant, "pattern": crate::data::hex(pattern), "seed": seed.to_string(), "total": total.to_string(), "via": "hash_stream_for"});
+    let hist = json!({"variant_id": variant, "pattern": crate::data::hex(pattern), "seed": seed.to_string(), "total": total.to_string(), "via": "hash_stream_for", "fail_at_end": fail_at_end});
     let want = match Model::at_offset(v, pattern, total.min(crate::model::CUTOFF), JUMP_CAP) {
         Some(mut m) => {
             if total > m.n {
@@ -264,9 +270,11 @@ pub fn big_reader(variant: u8, pattern: &[u8], seed: u64, total: u64) -> (i32, V
         }
         None => None,
     };
+    let want = if fail_at_end { Some(format!("IOError({:?}, errno Some(5))", std::io::Error::from_raw_os_error(5).kind())) } else { want };
     let mut viol = Vec::new();
     match (&got, &want) {
         (Err(p), _) => viol.push(json!({"index": seed, "class": format!("panic:{}", crate::framework::panic_class(p)), "detail": format!("panic: {p}"), "history": hist, "engine": "bigstream"})),
+        (Ok(g), Some(w)) if fail_at_end && g != w => viol.push(json!({"index": seed, "class": "hard-error-swallowed", "detail": format!("the reader failed with errno 5 after delivering {total} bytes: got {g}, want {w}"), "history": hist, "engine": "bigstream"})),
         (Ok(g), Some(w)) if g != w => viol.push(json!({"index": seed, "class": "stream-differs-from-reference", "detail": format!("{total} bytes through hash_stream_for: got {g}, reference model {w}"), "history": hist, "engine": "bigstream"})),
         _ => {}
     }
@@ -288,7 +296,11 @@ pub fn big_reader(variant: u8, pattern: &[u8], seed: u64, total: u64) -> (i32, V
         }
     }
     for x in viol.iter_mut() {
-        x["argv"] = json!(["bigreader", "--variant", variant.to_string(), "--pattern", crate::data::hex(pattern), "--seed", seed.to_string(), "--total", total.to_string()]);
+        x["argv"] = if fail_at_end {
+            json!(["bigreader", "--variant", variant.to_string(), "--pattern", crate::data::hex(pattern), "--seed", seed.to_string(), "--total", total.to_string(), "--fail-at-end"])
+        } else {
+            json!(["bigreader", "--variant", variant.to_string(), "--pattern", crate::data::hex(pattern), "--seed", seed.to_string(), "--total", total.to_string()])
+        };
     }
     let n = viol.len();
     let rep = json!({"scenario": "c12big", "property": "C12", "seed": seed.to_string(), "evaluations": 1, "distinct": 1, "distinct_nontrivial": 1,
